@@ -721,9 +721,11 @@ def lifecycle_sweep(ctx, maxlen, profile, stats):
     st = stats.setdefault("lifecycle", {"cases": 0, "events": 0, "probes": 0, "intervals": ["unset", 0, 50],
                                         "max_length": maxlen})
     try:
-        for n in range(1, maxlen + 1):
-            for events in itertools.product(names, repeat=n):
-                for interval in (None, 0, 50):
+        # order: keep-alive switched off first, and within a length the sequences that end in a completed login first,
+        # so that the first records of a failing run show stanzas left unanswered on a connection that is up again
+        for interval in (0, None, 50):
+            for n in range(1, maxlen + 1):
+                for events in sorted(itertools.product(names, repeat=n), key=lambda e: e[-1] != "AUTHED"):
                     if len([v for v in ctx.violations if v["found_input"]]) >= 4:
                         return
                     flags = FLAGSETS[-1] if (st["cases"] % 4) else FLAGSETS[0]
